@@ -585,6 +585,13 @@ impl Model {
 
 /// Does `obs` match the pattern (sequence with optional elements)?
 fn track_matches(pat: &[TrackEntry], obs: &[(f64, f64)]) -> bool {
+    // common case: nothing optional -> plain comparison (long flights have tracks of thousands)
+    if pat.iter().all(|t| !t.optional) {
+        return pat.len() == obs.len() && pat.iter().zip(obs).all(|(t, o)| pos_close(t.pos, *o));
+    }
+    // strip the common mandatory prefix before the quadratic matching
+    let k = pat.iter().zip(obs).take_while(|(t, o)| !t.optional && pos_close(t.pos, **o)).count();
+    let (pat, obs) = (&pat[k..], &obs[k..]);
     // DP over (i in pat, j in obs)
     let n = pat.len();
     let m = obs.len();
